@@ -268,19 +268,25 @@ def sax (d : Doc) : List Sax :=
 
 /-! ## normal form -/
 
-def normContentT (c : ContentT) : ContentT := { c with text := c.text.map trim }
+/-- child text that is empty after trimming counts as no child text (`<a></a>` = `<a/>`) -/
+def normText (t : Option Str) : Option Str :=
+  match t with
+  | some t => if (trim t).isEmpty then none else some (trim t)
+  | none => none
+
+def normContentT (c : ContentT) : ContentT := { c with text := normText c.text }
 
 def normSend (s : SendT) : SendT :=
   { s with
     idlocation := if s.id.isEmpty then s.idlocation else []
     content := match s.content with
-      | some c => if c.expr.isNone ∧ c.text.isNone then none else some (normContentT c)
+      | some c => if c.expr.isNone ∧ (normText c.text).isNone then none else some (normContentT c)
       | none => none }
 
 /-- value of `<assign>`: the `expr` attribute or the quoted child text -/
 def assignValue (e t : Option Str) : Option Str :=
-  match t with
-  | some t => some ([34] ++ assignEscape (trim t) ++ [34])
+  match normText t with
+  | some t => some ([34] ++ assignEscape t ++ [34])
   | none => e
 
 mutual
